@@ -278,8 +278,8 @@ theorem C04_prechain_slack (k : Kind) (zero : Cell → Bool) (A M N : List Entry
 
 /-- Warm start: the slack variable of a converted range constraint receives the lower slack of the constraint the
     entry carries, at the presolved point (then `clampVec` moves it into `[0, ub-lb]`).  Which constraint the REAL
-    converter puts there is checked per run (`rangecon.used` vs `rangecon.own`): for quadratic range constraints
-    it is an unrelated linear one — known finding C04-quadrange-slack-warmstart. -/
+    converter puts there is checked per run (`rangecon.used` vs `rangecon.own`): before /repo 0119379 it was an unrelated
+    linear constraint for quadratic range constraints (finding C04-quadrange-slack-warmstart, fixed). -/
 theorem C04_warmstart_slack_entry (S : St) (cs ct vs : Cell) (sd : SlackData) (hd : ct ≠ vs) (h0 : S vs = 0) :
     (preEntry .sol (.r2s cs ct vs sd) S) vs = lowerSlack (S.setNum ct (S cs)) vs.1 sd := by
   simp [preEntry, St.setNum_other _ _ (Ne.symm hd), h0]
